@@ -886,11 +886,14 @@ Print Assumptions C05_from_local_values_example.
     the answer of find_local_time_type_from_local, read as offsets earliest first, IS the judge's
     expected list.  From there to the output of the op: C05_from_local_values_candidates.
     The judge's domain is wider than the hypotheses of C05_rule_zone_classification in one respect:
-    it asks for the premise in y-2..y+2, the theorem (rule_year_hyps) in y-3..y+2; the year y-3 is a
-    hypothesis of C05_holds_loc_rule (closing it needs the crude bound that a rule transition of year
-    y-3 lies before year y-1, from C05_transition_date).  Composite zones: the bridge is
-    C05_judge_spacing_footer_wide (hypotheses of C05_composite_classification_wide from the judge's
-    spacing condition). *)
+    it asks for the premise in y-2..y+2, that theorem (rule_year_hyps) in y-3..y+2.
+    C05_holds_loc_rule_exact closes this for rule-only zones: on EXACTLY the judge's domain (premise in
+    y-2..y+2 only) plus the routing condition; the year y-3 is replaced by the bound that a rule
+    transition of year y-3 lies more than two days before year y (from C05_transition_date,
+    C05_rule_is_dst_year_judge_premise).  C05_holds_loc_rule (with the year y-3 as a hypothesis) is kept
+    and superseded by it.  Composite zones: the bridge is C05_judge_spacing_footer_wide (hypotheses of
+    C05_composite_classification_wide from the judge's spacing condition; those theorems still use
+    rule_year_hyps, i.e. y-3..y+2, for the readings past the last table window). *)
 Theorem C05_holds_loc_table : forall zone ps first y w l,
   table_zone zone ps first -> extra_rule zone = None -> increasing (offs ps) = true ->
   J.spacing_ok (szone_of ps first) w = true ->
@@ -908,6 +911,25 @@ Theorem C05_holds_loc_rule : forall zone a first w l,
   exists m, find_local_time_type_from_local zone k w = Val (Ok m) /\ mlt_list (mlt_map m ut_offset) = l.
 Proof. exact holds_loc_rule. Qed.
 Print Assumptions C05_holds_loc_rule.
+(* the oracle's DST predicate in terms of the two transitions of the reading year under the JUDGE's
+   premise (years k-2..k+2, [rule_year_hyps5]) for every rule the reader can produce *)
+Theorem C05_rule_is_dst_year_judge_premise : forall a k t, alt_ok a -> -2147483640 <= k <= 2147483650 ->
+  let r := conv_rule a in
+  rule_year_hyps5 r k ->
+  (year_start k <= t + r_std r < year_start (k + 1) \/ year_start k <= t + r_dst r < year_start (k + 1)) ->
+  rule_is_dst r t = yform (rule_start_utc r k) (rule_end_utc r k) t.
+Proof. exact rule_is_dst_year5. Qed.
+Print Assumptions C05_rule_is_dst_year_judge_premise.
+Theorem C05_holds_loc_rule_exact : forall zone a first w l,
+  let r := conv_rule a in let k := utc_year w in
+  let rz := mk_szone (ut_offset first) [] (Some (inr r)) in
+  transitions zone = [] -> index (local_time_types zone) 0 = Val first ->
+  extra_rule zone = Some (Alternate a) -> alt_ok a -> r_std r <> r_dst r ->
+  J.spacing_ok rz w = true ->
+  J.expected_loc (zone_offsets rz) rz w = Some l ->
+  exists m, find_local_time_type_from_local zone k w = Val (Ok m) /\ mlt_list (mlt_map m ut_offset) = l.
+Proof. exact holds_loc_rule5. Qed.
+Print Assumptions C05_holds_loc_rule_exact.
 Theorem C05_holds_loc_example :
   J.spacing_ok (szone_of ex_ps ex_cet) 1698546600 = true /\
   J.expected_loc (zone_offsets (szone_of ex_ps ex_cet)) (szone_of ex_ps ex_cet) 1698546600 = Some [7200; 3600] /\
